@@ -357,8 +357,44 @@ def rule_dt(repo):
     return res
 
 
+# torch.Tensor defines these in-place operator methods (element-wise on the raw coordinates); it defines no __imatmul__, so `X @= Y` falls back to
+# X = X @ Y by itself
+TENSOR_INPLACE_DUNDERS = {'__add__': '__iadd__', '__sub__': '__isub__', '__mul__': '__imul__', '__truediv__': '__itruediv__', '__pow__': '__ipow__'}
+
+
+@guarded
+def rule_iop(repo):
+    """An operator that LieTensor redefines with Lie semantics (X * Y: group product, X + a: retraction) has an augmented twin (X *= Y, X += a).
+    Python resolves the augmented form to the in-place dunder FIRST; torch.Tensor defines __imul__ / __iadd__ as the element-wise in-place
+    operation on the raw coordinates.  Unless LieTensor overrides the in-place dunder too, a history that updates an element with `X *= Y`
+    multiplies quaternion components pairwise: the result is not X * Y and not a group element."""
+    res = RuleResult('C03.IOP', 'every arithmetic operator LieTensor overrides with Lie semantics has its augmented twin overridden as well, delegating to '
+                     'the same Lie operation (or its in-place variant): `X *= Y` / `X += a` never fall through to torch\'s element-wise in-place operation', floor=2)
+    ci = repo.cls(LT, 'LieTensor')
+    for op, iop in sorted(TENSOR_INPLACE_DUNDERS.items()):
+        if op not in ci.methods:
+            continue
+        f = ci.methods[op]
+        # what the plain operator delegates to
+        own = lambda fn_: {c.func.attr for c in paths.calls_in(fn_.node) if isinstance(c.func, ast.Attribute) and dotted(c.func.value) in ('self', 'self.ltype')}
+        tgt = own(f)
+        g = ci.methods.get(iop)
+        ok = False
+        if g is not None:
+            mine = own(g)
+            stem = lambda z: {x.rstrip('_').lower() for x in z}
+            ok = bool(stem(tgt) & stem(mine)) or op in mine
+        res.inst({'class': ci.fq, 'operator': op, 'delegates_to': sorted(tgt), 'in-place twin': iop, 'overridden with the same semantics': ok}, (ci.fq, op))
+        if not ok:
+            res.add(Finding('C03.IOP', g if g is not None else f, 'LieTensor overrides %s with Lie semantics (%s) but %s: the augmented assignment resolves to '
+                            'torch.Tensor.%s, the element-wise in-place operation on the raw coordinates - the updated element is not the Lie result and '
+                            'not a valid group element' % (op, ', '.join(sorted(tgt)) or '?', ('its %s does not delegate to the same operation' % iop) if g is not None
+                                                           else ('defines no %s' % iop), iop), construct='augmented twin of ' + op))
+    return res
+
+
 def _rules_core(repo, tier):
-    return [rule_layout(repo, 'C03.LT', lt_entries(), floor=16), rule_acc(repo), rule_id(repo), rule_sb(repo), rule_dt(repo), rule_nosign(repo), rule_mat(repo), rule_wrap(repo)]
+    return [rule_layout(repo, 'C03.LT', lt_entries(), floor=16), rule_acc(repo), rule_id(repo), rule_sb(repo), rule_dt(repo), rule_nosign(repo), rule_mat(repo), rule_wrap(repo), rule_iop(repo)]
 
 
 @guarded
